@@ -25,9 +25,9 @@ def stores_to(f, name):
     for n in walk_local(f.node, include_root=False):
         if isinstance(n, ast.Assign):
             for t in n.targets:
-                for el in _flatten_targets(t):
+                for el, val in _pair_targets(t, n.value):
                     if isinstance(el, ast.Name) and el.id == name:
-                        out.append((n, n.value if el is t else None))
+                        out.append((n, val))
                     elif isinstance(el, ast.Starred) and \
                             isinstance(el.value, ast.Name) and \
                             el.value.id == name:
@@ -53,6 +53,22 @@ def stores_to(f, name):
     return out
 
 
+def _pair_targets(t, value):
+    """(target element, value expr or None): parallel tuple assignments are
+    paired element-wise."""
+    if isinstance(t, (ast.Tuple, ast.List)):
+        if isinstance(value, (ast.Tuple, ast.List)) and \
+                len(value.elts) == len(t.elts) and \
+                not any(isinstance(e, ast.Starred) for e in t.elts):
+            for te, ve in zip(t.elts, value.elts):
+                yield from _pair_targets(te, ve)
+        else:
+            for e in _flatten_targets(t):
+                yield e, None
+    else:
+        yield t, value
+
+
 def _flatten_targets(t):
     if isinstance(t, (ast.Tuple, ast.List)):
         for e in t.elts:
@@ -67,10 +83,6 @@ def chained_assign_value(f, name):
     if len(st) != 1:
         return None
     stmt, val = st[0]
-    if isinstance(stmt, ast.Assign):
-        return stmt.value if any(
-            isinstance(t, ast.Name) and t.id == name for t in stmt.targets) \
-            else val
     return val
 
 
